@@ -41,7 +41,8 @@ theorem drain_eq_pullsOf (clear : Bool) : ∀ (fuel : Nat) (s : XStream), s.sour
     when the stream started, wherever the source raises and whichever events crash mid-processing (leaving
     their partial errors in the shared executor): what the consumer sees is the state-free specification —
     each surviving event's result is the execution of the selection with THAT event on a FRESH executor, in
-    source order; a source error consumes no event; a crashed event consumes its index and yields no result. -/
+    source order; a source error consumes no event; a crashed event consumes its index and yields no result.
+    (As for `kth_result_is_exec_of_kth_event`: the specification side is the same model function on a fresh executor; the content is that nothing of a crashed or failed event survives `clear_errors`, for every fault sequence.) -/
 theorem faults_do_not_leak (st : ExecState) (k : Nat) (items : List Item) :
     pullsOf true st k items = specPulls k items := by
   induction items generalizing st k with
